@@ -22,6 +22,14 @@ def parseBlock (s : String) : Option Block :=
 
 def showBlock (b : Block) : String := s!"{b.start}:{b.off}:{b.len}:{b.hash}"
 
+/-- `fewparts` only disturbs a request for two or more ranges -/
+def affectedMulti (kind : String) (k : Nat) (fixedN : Nat) (multi : List MR) : Bool :=
+  if kind == "fewparts" then
+    match multi[k - fixedN]? with
+    | some m => decide (fixedN ≤ k) && decide (2 ≤ m.ranges.length)
+    | none => false
+  else true
+
 /-- does fault `kind` on request number `k` (0 = the `.sync` GET, 1 = HEAD, 2 = first 16 KiB, …) disturb the run? -/
 def affected (kind : String) (k nreqs : Nat) : Bool :=
   if k ≥ nreqs then false
@@ -55,12 +63,15 @@ def handle (ts : List String) : Option String :=
            | [kind, "0"] =>
              let okLine := s!"ok {summary} reqs=GET.sync file=" ++ ahex
              if kind == "drop" then some ("err file=" ++ ahex ++ " || " ++ okLine)
-             else if affected kind 0 1 then some ("err file=" ++ ahex) else some okLine
+             else if affected kind 0 1 && kind != "fewparts" then some ("err file=" ++ ahex) else some okLine
            | _ => some (s!"ok {summary} reqs=GET.sync file=" ++ ahex))
         else
           let nreqs := 1 + o.reqs.length
+          let multiMR := makeMultiRanges o.plan.wantR 0 (1048576 - 200)
           let hit := match fault.splitOn ":" with
-            | [kind, k] => (match k.toNat? with | some k => affected kind k nreqs | none => false)
+            | [kind, k] => (match k.toNat? with
+                | some k => affected kind k nreqs && affectedMulti kind k (nreqs - multiMR.length) multiMR
+                | none => false)
             | _ => false
           let okLine :=
             let fixed := o.reqs.take (o.reqs.length - (makeMultiRanges o.plan.wantR 0 (1048576 - 200)).length)
